@@ -1,4 +1,5 @@
 import McpModel.Generated.GateGen
+import McpModel.Generated.NegotiateGen
 /-!
 # E3 `Gate` — admission of one incoming JSON-RPC request (model; core Lean only)
 
@@ -15,6 +16,12 @@ Transliteration of, in this order (one envelope = one atomic step of the session
 Everything that is a *table* in the Go source is taken from `Generated.Gate` (regenerated from the
 working tree on every run): the method tables with their flags, the case lists of the gate switch,
 the supported versions, the error codes, and which coded error each check wraps.
+
+The session's transport enters through `State.tv` = `ServerSession.supportedVersions`, the result of
+`filterSupportedVersions` at `Server.Connect` (`transportVersions`): `initialize` answers -32022 and
+changes nothing when the transport serves no version the handshake can be negotiated to
+(`Generated.Negotiate.legacyVersionFor` / `negotiatedVersion`, regenerated from `mcp/shared.go`), and
+`server/discover` persists the request's identity only when the transport serves the new protocol.
 
 The client's receiving side (`ClientSession.handle`) has no gate: `admitClient`.
 -/
@@ -63,17 +70,38 @@ structure InitInfo where
   ver : String
   deriving DecidableEq, Repr
 
-/-- `ServerSessionState` (mcp/session.go): nil-ness of the two params encodes the lifecycle phase. -/
+/-- `ServerSessionState` (mcp/session.go): nil-ness of the two params encodes the lifecycle phase.
+`tv` is `ServerSession.supportedVersions`: written once by `Server.Connect`, read (under `mu`) by
+`initialize` and `server/discover`; no request changes it (`Gate.tv_unchanged`). -/
 structure State where
   init : Option InitInfo := none   -- InitializeParams
   initd : Bool := false            -- InitializedParams != nil
   level : String := ""             -- LogLevel
+  tv : List String := supportedProtocolVersions   -- supportedVersions (default: a transport without ProtocolVersionSupporter)
   deriving DecidableEq, Repr
+
+/-- `filterSupportedVersions`: the SDK's versions the transport's `SupportsProtocolVersion` admits, in
+the SDK's order; a transport that does not implement `ProtocolVersionSupporter` admits all. -/
+def transportVersions (supports : String → Bool) : List String := supportedProtocolVersions.filter supports
+
+/-- The session `Server.Connect` returns on a transport whose filtered version list is `tv`. -/
+def fresh (tv : List String) : State := { tv := tv }
+
+/-- The version `initialize` answers with for `params.protocolVersion = iver` (`""`: none). -/
+def initVersion (tv : List String) (iver : String) : String :=
+  Generated.Negotiate.legacyVersionFor (Generated.Negotiate.negotiatedVersion iver) tv
+
+/-- `Server.discover`: the identity is persisted only when the best version the transport serves is
+a new-protocol one. -/
+def discoverPersists (tv : List String) : Bool :=
+  !decide (Generated.Negotiate.negotiateMutuallySupportedVersion tv < newProtocolThreshold)
 
 /-- What the method's handler returned. -/
 inductive HRes where
   | ok
   | fail (code : Int)
+  /-- `initialize` on a transport that serves no legacy version: -32022 carrying the transport's versions -/
+  | failUnsupported (data : List String)
   | unspecified        -- depends on user-level semantics the model does not describe
   deriving DecidableEq, Repr
 
@@ -189,7 +217,9 @@ def featureRes (r : Req) : HRes :=
 def serverHandler (s : State) (r : Req) (m : Method) : State × HRes :=
   match m with
   | .initialize =>
-    match s.init with
+    -- order of the Go code: the transport's versions first, then the duplicate check, then the write
+    if initVersion s.tv r.iver == "" then (s, .failUnsupported s.tv)
+    else match s.init with
     | some _ => (s, .fail codeNone)                                  -- "duplicate initialize"
     | none => ({ s with init := some ⟨r.tag, r.iver⟩ }, .ok)
   | .notifications_initialized =>
@@ -205,7 +235,7 @@ def serverHandler (s : State) (r : Req) (m : Method) : State × HRes :=
       | _ => match s.init with
         | some i => i.tag
         | none => "anon"
-    ({ s with init := some ⟨tag, metaVersion r⟩ }, .ok)
+    if discoverPersists s.tv then ({ s with init := some ⟨tag, metaVersion r⟩ }, .ok) else (s, .ok)
   | .prompts_list | .resources_list | .resources_templates_list | .tools_list => (s, .ok)
   | .notifications_cancelled | .notifications_progress | .notifications_roots_list_changed => (s, .ok)
   | _ => (s, featureRes r)
@@ -272,6 +302,7 @@ def answer (r : Req) : Outcome → Answer
     else match res with
       | .ok => .result
       | .fail c => .error c []
+      | .failUnsupported d => .error codeUnsupportedProtocolVersion d
       | .unspecified => .some_answer
 
 /-- Running a history: every step with the state it started from. -/
@@ -282,5 +313,12 @@ def trace : State → List Req → List (State × Req × Outcome)
 def finalState : State → List Req → State
   | s, [] => s
   | s, r :: rs => finalState (admitReq s r).1 rs
+
+/-- What a result carries that depends on the transport: the negotiated version of an accepted
+`initialize`, the advertised versions of a served `server/discover`. -/
+def resultInfo (s : State) (r : Req) : Outcome → Option String
+  | .invoked .initialize .ok => some (initVersion s.tv r.iver)
+  | .invoked .server_discover .ok => some (",".intercalate s.tv)
+  | _ => none
 
 end Gate
